@@ -111,10 +111,14 @@ def apply(doc, update, on_insert=False):
             parts = path.split('.')
             if parts[0] == '_id':
                 raise Unknown('_id path')
+            mine = [parts]
+            if op == '$rename' and isinstance(arg, str):
+                mine.append(arg.split('.'))
             for q in paths:
-                if q[:len(parts)] == parts or parts[:len(q)] == q:
-                    raise Unknown('conflicting paths')
-            paths.append(parts)
+                for m in mine:
+                    if q[:len(m)] == m or m[:len(q)] == q:
+                        raise Unknown('conflicting paths')
+            paths.extend(mine)
             one(d, op, parts, arg, on_insert)
     return d
 
